@@ -421,7 +421,9 @@ func genPhase4(out *bufio.Writer, r *vproto.Rng, tier string, emit func(geom.Geo
 	depth := map[int]int{1: 1, 2: 1, 3: 2, 4: 2, 5: 3}
 	var cases []hc
 	for k := 1; k <= 5; k++ {
-		cases = append(cases, hc{k, depth[k] - 1, 1<<16 + 1}) // the run of positions of every type
+		for level := 0; level < depth[k]; level++ { // every nesting level of every type: 2^16+1 members
+			cases = append(cases, hc{k, level, 1<<16 + 1})
+		}
 	}
 	sizes := []int{1 << 16, 1<<16 - 1, 1<<17 + 1, 1<<15 + 1, 1<<14 + 1, 1<<13 + 1, 1<<16 + 2, 100003}
 	extra := 4
